@@ -175,7 +175,7 @@ func (s *JavaIdentifierListener) EnterAnnotation(ctx *parser.AnnotationContext) 
 		isOverrideMethod = true
 	}
 
-	if !hasEnterClass {
+	if !hasEnterClass && !common_listener.IsAnnotationArgument(ctx) {
 		annotation := common_listener.BuildAnnotation(ctx)
 		currentNode.Annotations = append(currentNode.Annotations, annotation)
 	}
